@@ -37,6 +37,7 @@ type analysis struct {
 	chunks     int
 	fin2       uint64 // the finalised height read by the catch-up's own setL1Head
 	dbFault    bool
+	loopTied   bool // the life was replayed on the model's Loop (channel / subscription bookkeeping)
 	retryPolls int // polls whose finalisedHeight needed more than one attempt (model op `poll`)
 	faultNotes int // listener notifications during the poll whose database access failed
 }
@@ -93,6 +94,7 @@ func linearise(c *Case, o *Observed, guard bool) *analysis {
 	// gets the whole attempt sequence of one setL1Head call) and failed WatchStateUpdate attempts of the
 	// subscription in progress (subscribeLoop)
 	pendErr, pendWatch := 0, 0
+	loopFirst := -1 // index of the first WatchStateUpdate attempt: the event loop starts there
 	flushPoll := func() { // the poll ended without an answer (context ended / Run returned)
 		if pendErr > 0 {
 			a.steps = append(a.steps, modelStep{line: "poll" + strings.Repeat(" x", pendErr),
@@ -133,6 +135,13 @@ func linearise(c *Case, o *Observed, guard bool) *analysis {
 					a.problems = append(a.problems, "FilterStateUpdate called although heights were not read")
 				}
 				queries = append(queries, fmt.Sprintf("%x-%x", m.From, m.To))
+				// the uint64 chunk arithmetic, executed by the model on UInt64 (chunkFromU64)
+				ck := c.Chunk
+				if c.DefaultChunk {
+					ck = 1000
+				}
+				a.steps = append(a.steps, modelStep{line: fmt.Sprintf("chunkfrom %x %x", m.To, ck), expect: fmt.Sprintf("%x", m.From),
+					what: "from of the chunk (uint64 arithmetic)"})
 				if m.Kind == "filterfail" {
 					filterFailed = true
 				} else {
@@ -191,6 +200,10 @@ func linearise(c *Case, o *Observed, guard bool) *analysis {
 			} else {
 				a.problems = append(a.problems, "catch-up neither completed nor failed")
 			}
+		}
+		if loopFirst < 0 && (m.Kind == "watch" || m.Kind == "watchfail") {
+			loopFirst = i
+			a.steps = append(a.steps, modelStep{line: "loopstart"})
 		}
 		// live phase
 		if emitted < m.Consumed && emitted < len(o.Events) && pendErr > 0 {
@@ -337,7 +350,112 @@ func linearise(c *Case, o *Observed, guard bool) *analysis {
 			expect: fmt.Sprintf("gate=%s head=%s notes=%s err=%s", gate, o.FinalHead.String(), headList(o.Notes), orStr(o.RunErrClass, "none")),
 			what:   "whole life (startUp/runLife/lifeNotes/lifeErr)"})
 	}
+	// the event loop again, this time with its channel and its subscription bookkeeping (model `Loop`):
+	// what was put on the channel, what was received, every WatchStateUpdate attempt, every poll attempt,
+	// and which subscriptions the client unsubscribed, in which order
+	if loopFirst >= 0 && c.Mode == "run" && o.Stalled == "" && c.DBFault == "" && !a.dbFault && !o.EndedEarly {
+		for _, l := range o.Events {
+			a.steps = append(a.steps, modelStep{line: l.line("lev")})
+		}
+		toks := loopTokens(o, loopFirst)
+		n0 := o.Marks[loopFirst].NotesBefore
+		if n0 > len(o.Notes) {
+			n0 = len(o.Notes)
+		}
+		nsubs := 0
+		for _, m := range o.Marks {
+			if m.Kind == "watch" {
+				nsubs++
+			}
+		}
+		un := "-"
+		if len(o.Unsubs) > 0 {
+			xs := make([]string, len(o.Unsubs))
+			for i, k := range o.Unsubs {
+				xs[i] = fmt.Sprint(k)
+			}
+			un = strings.Join(xs, ",")
+		}
+		a.steps = append(a.steps, modelStep{
+			line: "loop " + strings.Join(toks, " "),
+			expect: fmt.Sprintf("head=%s notes=%s sub=none nsubs=%d unsub=%s chan=%d applied=%d pushed=%d ret=1",
+				o.FinalHead.String(), headList(o.Notes[n0:]), nsubs, un, o.FinalChan, len(o.Events)-o.FinalChan, len(o.Events)),
+			what: "event loop with channel and subscription bookkeeping (Loop)"})
+		a.loopTied = true
+	}
 	return a
+}
+
+// loopTokens: the schedule of the event loop as observed — producers' sends and the loop's receives between
+// two provider calls (counts are exact; inside one interval sends go first as far as the channel has room),
+// the WatchStateUpdate attempts, the FinalisedHeight attempts of every poll, the final cancel.
+func loopTokens(o *Observed, first int) []string {
+	var toks []string
+	fill, prevSent, prevCons := 0, 0, 0
+	io := func(sent, cons int) {
+		P, R := sent-prevSent, cons-prevCons
+		prevSent, prevCons = sent, cons
+		for P > 0 || R > 0 {
+			switch {
+			case P > 0 && fill < 128:
+				n := P
+				if n > 128-fill {
+					n = 128 - fill
+				}
+				toks = append(toks, fmt.Sprintf("p%d", n))
+				fill += n
+				P -= n
+			case R > 0 && fill > 0:
+				n := R
+				if n > fill {
+					n = fill
+				}
+				toks = append(toks, fmt.Sprintf("r%d", n))
+				fill -= n
+				R -= n
+			default:
+				return
+			}
+		}
+	}
+	bits, pend, started, gaveUp := "", "", false, false
+	sub := func() {
+		if !started {
+			toks = append(toks, "w"+bits)
+			started = true
+		} else {
+			toks = append(toks, "e"+bits)
+		}
+		bits = ""
+	}
+	for i := first; i < len(o.Marks); i++ {
+		m := o.Marks[i]
+		io(m.Sent, m.Consumed)
+		switch m.Kind {
+		case "watchfail":
+			bits += "0"
+		case "watch":
+			bits += "1"
+			sub()
+		case "finerr":
+			pend += "x/"
+		case "tick":
+			toks = append(toks, fmt.Sprintf("t%s%x", pend, m.Fin))
+			pend = ""
+		}
+	}
+	io(len(o.Events), len(o.Events)-o.FinalChan)
+	if bits != "" { // the context ended while the client was trying to (re)subscribe
+		sub()
+		gaveUp = true
+	}
+	if pend != "" { // … or while it was inside finalisedHeight's retry loop
+		toks = append(toks, "t"+strings.TrimSuffix(pend, "/"))
+	}
+	if !gaveUp {
+		toks = append(toks, "c")
+	}
+	return toks
 }
 
 // lastHead: the stored head at the end of the observation.
